@@ -104,7 +104,7 @@ def get_model(ctx: Ctx) -> RenderModel:
 def check_dispatch(ctx: Ctx) -> None:
     rm = get_model(ctx)
     ctx.note("registered_element_types", sorted(r.type_name for r in rm.mm.registered))
-    ctx.require("R-DISPATCH", "element classes the parser can instantiate", len(rm.mm.registered), 31)
+    ctx.require("R-DISPATCH", "element classes the parser can instantiate", len(rm.mm.registered), 25)
     for reg in sorted(rm.mm.registered, key=lambda r: r.type_name):
         key = f"{rm.rcls.qual.split(':')[0]}:{reg.type_name} -> {reg.render_name}"
         m = rm.methods[reg.type_name]
@@ -180,7 +180,7 @@ def check_fields(ctx: Ctx, only: set[str] | None = None) -> None:
                 bad += [s for s in ast.walk(it) if isinstance(s, ast.Slice) and s.step is not None]
                 ctx.ob("R-FIELD", f"{m.qual} :: iteration order over {txt[:50]}", not bad,
                        "children / delimiters must be rendered in document order (no sorted/reversed/set/stepped slice)", where(m, it))
-    ctx.require("R-FIELD", "field obligations", n, 47 if only is None else 1)
+    ctx.require("R-FIELD", "field obligations", n, 30 if only is None else 1)
 
 
 def _state_flow_attrs(ctx: Ctx, m: FuncInfo) -> set[str]:
@@ -600,8 +600,8 @@ def check_prefix(ctx: Ctx, clauses: set[str] | None = None) -> None:
                        "a block's rendered text must end with a newline (otherwise the next block is glued to it)"
                        + ("" if e is True else " [could not prove, not refuted]"), where(m, r))
     ctx.note("render_method_kinds", counts)
-    ctx.require("R-PREFIX", "block render methods (LEAF)", counts["LEAF"], 10)
-    ctx.require("R-PREFIX", "block render methods (CONTAINER)", counts["CONTAINER"], 4)
+    ctx.require("R-PREFIX", "block render methods (LEAF)", counts["LEAF"], 5)
+    ctx.require("R-PREFIX", "block render methods (CONTAINER)", counts["CONTAINER"], 2)
 
 
 def _own_line_pieces(ctx: Ctx, m: FuncInfo, r: Node) -> list[tuple[ast.AST, Node]]:
@@ -852,7 +852,7 @@ def check_encode(ctx: Ctx, rows: set[str] | None = None) -> None:
             for op, why in bad:
                 ctx.ob("R-ENCODE-verbatim", f"{key} :: {op.func.name}{op.text}", False,
                        f"{t}.{fld} must reach the output unchanged: {why}", where(op.func, op.node))
-        ctx.require("R-ENCODE", "verbatim field flows analysed", n_v, 15)
+        ctx.require("R-ENCODE", "verbatim field flows analysed", n_v, 8)
 
 
 def _mentions(o, name: str) -> bool:
